@@ -728,6 +728,18 @@ class Inliner:
                     except NotInlinable as e:
                         self._site(r[0], False, str(e))
                         return [s]
+        # `x = A if c else helper(...)` / `return helper(...) if c else B`: written out as an if statement so that the
+        # conditionally evaluated helper call becomes a whole statement value and can be inlined
+        if isinstance(s, (ast.Assign, ast.Return)) and isinstance(getattr(s, "value", None), ast.IfExp):
+            ie = s.value
+            has_new = any(self.resolve(c, fi) is not None for br in (ie.body, ie.orelse) for c in ast.walk(br) if isinstance(c, ast.Call))
+            if has_new and (isinstance(s, ast.Return) or len(s.targets) == 1):
+                def mk(v):
+                    if isinstance(s, ast.Return):
+                        return ast.copy_location(ast.Return(value=v), s)
+                    return ast.copy_location(ast.Assign(targets=[copy.deepcopy(s.targets[0])], value=v), s)
+                new_if = ast.copy_location(ast.If(test=ie.test, body=[mk(ie.body)], orelse=[mk(ie.orelse)]), s)
+                return self.rewrite_stmt(new_if, fi, names, depth)
         # `if a and helper(...): S` (no else): the helper is only evaluated when `a` holds — write the nesting out so
         # that the call can be hoisted inside it
         if isinstance(s, ast.If) and not s.orelse and isinstance(s.test, ast.BoolOp) and isinstance(s.test.op, ast.And) and len(s.test.values) >= 2:
